@@ -43,7 +43,7 @@ class FnSpec:
     """Contract for one function (insert-only)."""
 
     def __init__(self, ret=None, sig="", loops=None, at=None, ghost=False, body_start="",
-                 rewrites=None, attrs="", no_unwind=True, generics=None, try_explicit=False, names=None, shape_free=False):
+                 rewrites=None, attrs="", no_unwind=True, generics=None, try_explicit=False, names=None, shape_free=False, counted=None):
         self.ret = ret            # name for the return value:  -> T   becomes  -> (ret: T)
         self.sig = sig            # requires/ensures/decreases text, inserted before the body `{`
         self.loops = loops or {}  # ordinal (1-based) -> invariant/decreases text, before loop body `{`
@@ -55,6 +55,8 @@ class FnSpec:
         self.shape_free = shape_free  # the loop contract is anchored on effects, not on the loop's shape: it decides restructured loops too
         self.names = names or {}  # placeholder -> regex with one group, matched on the fn text: `$placeholder` in sig / loops / at / anchors
         #                           stands for the captured name (a local variable), so that renaming the local keeps the contract
+        self.counted = counted or {}  # ordinal -> placeholder: loop #ordinal counts its rounds, as `for _ in 0..N` (the ghost iterator counts) or as
+        #                           `while X < N` (X counts); `$placeholder` in the loop's contract is the number of completed rounds either way
         self.try_explicit = try_explicit  # T-TRY: write `E?` out as its match (the installed Verus knows nothing of the converted error of `?`)
 
 
@@ -547,7 +549,23 @@ class Piece:
                         done = False
                         break
                 # (2) if C { continue; }
-                if toks[k].text == "continue":
+                if toks[k].text == "continue" and toks[k].kind == "ident":
+                    # the innermost loop this `continue` belongs to
+                    own = None
+                    for q in range(k - 1, -1, -1):
+                        if toks[q].kind == "ident" and toks[q].text in ("loop", "while", "for") and toks[q + 1].text != "<":
+                            m = q + 1
+                            while m < n and toks[m].text != "{":
+                                if toks[m].text in ("(", "["):
+                                    m = match_close(toks, m)
+                                m += 1
+                            if m < k and match_close(toks, m) > k:
+                                own = (q, m)
+                                break
+                    if own is None:
+                        raise Undecided("`continue` outside a loop")
+                    if toks[own[0]].text in ("loop", "while"):
+                        continue   # the installed Verus takes `continue` in `loop` and `while` as it is
                     if not (toks[k + 1].text == ";" and toks[k + 2].text == "}" and toks[k - 1].text == "{"):
                         raise Undecided("`continue` outside the supported shape")
                     # find the `if` that owns this block
@@ -574,6 +592,9 @@ class Piece:
                         if toks[i].text == "}":
                             break
                         i += 1
+                    if i != match_close(toks, own[1]):
+                        # the `if` is not a statement of the loop body itself: what follows it in its block is not all a round skips
+                        raise Undecided("`continue` of a `for` loop inside a nested block (the installed Verus takes no `continue` in `for` loops)")
                     rest = text[toks[close_if].end:toks[i].start]
                     new = text[:toks[k - 1].start] + "{ } else {" + rest + "}\n" + text[toks[i].start:]
                     self.rewrites_log.append({"rule": "T-CTRL", "file": self.relpath, "item": self.spec,
@@ -895,10 +916,45 @@ class Piece:
             self.unit.vacuity_expected.append(f"VACUITY.entry.{fn.name}")
             if isolated:
                 self.unit.vacuity_expected += [f"VACUITY.loop{n+1}.{fn.name}" for n in range(len(lps))]
+        counted_sub = {}
+        for ordinal, ph in (getattr(fs, "counted", None) or {}).items():
+            if ordinal < 1 or ordinal > len(lps):
+                raise Undecided(f"{fn.name}: loop #{ordinal} not found (has {len(lps)})")
+            kw, ko = lps[ordinal - 1]
+            if toks[kw].text == "for":
+                j_ = kw + 1
+                while j_ < ko and not (toks[j_].text == "in" and toks[j_].kind == "ident"):
+                    if toks[j_].text in OPEN:
+                        j_ = match_close(toks, j_)
+                    j_ += 1
+                if j_ >= ko:
+                    raise Undecided(f"{fn.name}: loop #{ordinal}: no `in`")
+                rng = self.sf.text[toks[j_ + 1].start:toks[ko].start].strip()
+                if not re.match(r"^\(?\s*0\s*\.\.[^=]", rng):
+                    raise Undecided(f"{fn.name}: loop #{ordinal}: counted loop over `{rng}` (only `0..N` counts rounds from zero)")
+                gname = f"cnt{ordinal}__"
+                self._add(toks[j_ + 1].start, toks[j_ + 1].start, gname + ": ", "insert")
+                counted_sub[ordinal] = (ph, f"{gname}.index@", "")
+            elif toks[kw].text == "while":
+                cond = self.sf.text[toks[kw].end:toks[ko].start].strip()
+                m_ = re.match(r"^(\w+)\s*<\s*([\w:]+(?:\s+as\s+\w+)?)$", cond)
+                if not m_:
+                    raise Undecided(f"{fn.name}: loop #{ordinal}: `while {cond}` is not of the form `while COUNTER < BOUND`")
+                x_, e_ = m_.group(1), m_.group(2)
+                counted_sub[ordinal] = (ph, f"({x_} as int)", f"        {x_} <= {e_},\n    decreases {e_} - {x_},\n")
+            else:
+                raise Undecided(f"{fn.name}: loop #{ordinal} is a bare `loop`: its contract counts rounds of a `for`/`while` loop")
         for ordinal, text in fs.loops.items():
             if ordinal < 1 or ordinal > len(lps):
                 raise Undecided(f"{fn.name}: loop #{ordinal} not found (has {len(lps)})")
             kw, ko = lps[ordinal - 1]
+            if ordinal in counted_sub:
+                ph, repl_, extra_ = counted_sub[ordinal]
+                text = text.replace("$" + ph, repl_)
+                if extra_:
+                    if "decreases" in text:
+                        raise Undecided(f"{fn.name}: loop #{ordinal}: counted loop contract already has a decreases clause")
+                    text = text.rstrip() + "\n" + extra_
             self._add(toks[ko].start, toks[ko].start, "\n" + text + "\n", "insert")
         self.nloops = len(lps)
         # the control skeleton of each loop: kind + the jumps out of / around its body, in order.  A loop contract (invariant, loop
@@ -920,12 +976,17 @@ class Piece:
             pa, pb = a.split("|"), b.split("|")
             if len(pa) != len(pb):
                 return False
-            for x, y in zip(pa, pb):
+            for n_, (x, y) in enumerate(zip(pa, pb), 1):
                 hx, _, jx = x.partition(":")
                 hy, _, jy = y.partition(":")
+                keep = ("loop", "for", "while", "continue")
+                if n_ in (getattr(fs, "counted", None) or {}):
+                    # a counted loop: its contract speaks of the number of completed rounds, which a `for _ in 0..N` and a
+                    # `while i < N` both have; every path back to the loop head (a `continue` too) is checked against it
+                    hx, hy = hx.replace("while", "for"), hy.replace("while", "for")
+                    keep = ("loop", "for", "while")
                 if hx != hy:
                     return False
-                keep = ("loop", "for", "while", "continue")
                 if [t for t in jx.split(",") if t in keep] != [t for t in jy.split(",") if t in keep]:
                     return False
             return True
@@ -945,6 +1006,9 @@ class Piece:
             if os.environ.get("VERIF_LIST_ANCHORS"):
                 print(f"ANCHORLIST\t{self.unit.name}\t{fn.name}\t{_ai}\t{anchor[0]}\t{str(anchor[1])[:40]}\t{anchor[3].strip()[:30]!r}")
             where, snippet, occ, text = anchor[:4]
+            for ph_, repl_, _x in counted_sub.values():
+                if isinstance(text, str):
+                    text = text.replace("$" + ph_, repl_)
             arule = anchor[4] if len(anchor) > 4 else "insert"
             if where == "loop_start":
                 # ("loop_start", None, k, text): right after the `{` of loop #k
@@ -1489,8 +1553,86 @@ class Unit:
         return self.take(relpath, spec, module, "stub", fns, props)
 
     # ------------------------------------------------------------------------------------
+    def _auto_items(self, m, rendered):
+        """T-USE / T-CONST (automatic): a `use std::..` line or a top-level `const` that the source file of a verified piece has,
+        that the unit's module does not declare, and that the verified text mentions, is carried over - a change that
+        imports a std type or names a number by a new constant stays within the unit.  Paths outside std/core/alloc
+        are not resolvable here (no external crate is present) and are left alone: the unit is then undecided as before."""
+        body = m["header"] + "\n"
+        vtexts = {}
+        for part in m["parts"]:
+            if part[0] == "raw":
+                body += part[1] + "\n"
+            else:
+                pre, segs, post = rendered[id(part[1])]
+                t_ = pre + "".join(x[1] for x in segs) + post
+                body += t_ + "\n"
+                if part[1].mode == "verify":
+                    vtexts.setdefault(part[1].relpath, "")
+                    vtexts[part[1].relpath] += t_ + "\n"
+        # whatever the unit's preludes and shims define may reach the module through a glob import: never shadowed by an automatic import
+        glob_ = ""
+        for pn in self.preludes:
+            glob_ += open(os.path.join(VERIF, "prelude", pn + ".rs"), encoding="utf-8").read() + "\n"
+        for m2 in self.modules.values():
+            for part in m2["parts"]:
+                if part[0] == "raw":
+                    glob_ += part[1] + "\n"
+        def declared(name):
+            if re.search(r"\b(?:struct|enum|type|fn|const|static|mod|trait|union)\s+" + re.escape(name) + r"\b", glob_):
+                return True
+            return bool(re.search(r"\b(?:struct|enum|type|fn|const|static|mod|trait|union)\s+" + re.escape(name) + r"\b", body)
+                        or re.search(r"\buse\b[^;]*\b" + re.escape(name) + r"\b[^;]*;", body))
+        def flatten(prefix, rest, out):
+            rest = rest.strip()
+            if rest.startswith("{") and rest.endswith("}"):
+                depth, cur, items = 0, "", []
+                for ch in rest[1:-1]:
+                    if ch == "," and depth == 0:
+                        items.append(cur); cur = ""
+                    else:
+                        depth += ch == "{"
+                        depth -= ch == "}"
+                        cur += ch
+                if cur.strip():
+                    items.append(cur)
+                for it in items:
+                    flatten(prefix, it, out)
+                return
+            if "::" in rest and "{" in rest:
+                head, _, tail = rest.partition("::{")
+                flatten(prefix + head.strip() + "::", "{" + tail, out)
+                return
+            mm = re.match(r"^([\w:]+?)(?:\s+as\s+(\w+))?$", rest)
+            if mm:
+                full = prefix + mm.group(1)
+                name = mm.group(2) or full.split("::")[-1]
+                out.append((name, full + (f" as {mm.group(2)}" if mm.group(2) else "")))
+        uses, consts = [], []
+        for relpath, vt in vtexts.items():
+            try:
+                src = open(os.path.join(REPO, relpath), encoding="utf-8").read()
+            except OSError:
+                continue
+            for mu in re.finditer(r"(?m)^(?:pub(?:\([^)]*\))?\s+)?use\s+([^;]+);", src):
+                flat = []
+                flatten("", re.sub(r"\s+", " ", mu.group(1)), flat)
+                for name, full in flat:
+                    if full.split("::")[0] not in ("std", "core", "alloc") or name in ("self", "*"):
+                        continue
+                    if re.search(r"\b" + re.escape(name) + r"\b", vt) and not declared(name) and f"{full}" not in uses:
+                        uses.append(full)
+                        self.auto_log.append({"rule": "T-USE", "file": relpath, "item": name, "from": f"use {full};", "to": f"use {full};"})
+            for mc in re.finditer(r"(?m)^(?:pub(?:\([^)]*\))?\s+)?const\s+(\w+)\s*:[^;]+;", src):
+                name = mc.group(1)
+                if re.search(r"\b" + re.escape(name) + r"\b", vt) and not declared(name) and mc.group(0) not in consts:
+                    consts.append(mc.group(0))
+                    self.auto_log.append({"rule": "T-CONST", "file": relpath, "item": name, "from": mc.group(0), "to": mc.group(0)})
+        return uses, consts
+
     def build(self):
         """Return (text, regions, meta). regions: list of dicts with gen byte range + origin."""
+        self.auto_log = []
         out = []
         regions = []
         pos = 0
@@ -1504,6 +1646,7 @@ class Unit:
             out.append(s)
             pos += len(b)
 
+        emit("#![feature(allocator_api)]\n", kind="glue")
         emit("#![allow(unused_imports, dead_code, unused_variables, unused_mut, unused_parens, "
              "unused_braces, unreachable_code, non_snake_case, unused_assignments, unused_macros)]\n"
              "use vstd::prelude::*;\n", kind="glue")
@@ -1523,15 +1666,21 @@ class Unit:
             if path:
                 emit(f"pub mod {path.split('::')[-1]} {{\nuse vstd::prelude::*;\n", kind="glue")
             if m:
+                rendered = {id(part[1]): part[1].render() for part in m["parts"] if part[0] != "raw"}
+                auto_use, auto_const = self._auto_items(m, rendered)
                 if m["header"]:
                     emit(m["header"] + "\n", kind="glue")
+                if auto_use:
+                    emit("".join(f"use {u_};\n" for u_ in auto_use), kind="glue")
                 emit("verus! {\n", kind="glue")
+                if auto_const:
+                    emit("".join(c_ + "\n" for c_ in auto_const), kind="glue")
                 for part in m["parts"]:
                     if part[0] == "raw":
                         emit(part[1] + "\n", kind="trusted" if part[2] else "spec", module=path)
                     else:
                         p = part[1]
-                        pre, segs, post = p.render()
+                        pre, segs, post = rendered[id(p)]
                         emit(f"// ---- {p.mode}: {p.relpath}::{p.spec} ----\n", kind="glue")
                         emit(pre, kind="glue")
                         for rule, txt, frm in segs:
